@@ -11,7 +11,7 @@ from harness.algebra import *
 PROPERTY = 'C12'
 LEVEL = 'model_checking'
 RULE = ('each CrossHair path decodes a function from U(K) (natively positional-only / keyword-only parameters '
-        'included, SYMBOLIC default values), a decorator form (kwoargs(*names), posoargs(*names), both stacked, '
+        'included, distinct constant default values), a decorator form (kwoargs(*names), posoargs(*names), both stacked, '
         'kwoargs(start=), posoargs(end=), autokwoargs(exceptions=)) with its selection and — in the call '
         'harnesses — a call shape (n positionals 0..len+2, keyword subset incl. a foreign one) with SYMBOLIC '
         'argument values; distinct = distinct rendered instance; non-trivial = decoration admissible')
@@ -20,7 +20,7 @@ EXPLANATION = ('The expected rewrite E of the signature is computed from the sel
                'annotations) through sigtools.signature and inspect.signature; the decorated callable, called '
                'directly and as a bound method, raises TypeError exactly when a native def with signature E does, '
                'and otherwise returns the same name->value mapping — value equality is decided by z3 over the '
-               'symbolic arguments and defaults.')
+               'symbolic arguments (defaults are distinct constants: sigtools formats whole signatures into its error messages, which CrossHair cannot do on symbolic values).')
 OUTSIDE = ('functions with more named parameters than the bound; calls passing a positional-only name by keyword '
            'alongside **kwargs (excluded by the property)')
 ASSUMPTIONS = ['keyword-only order is compared within the native group and within the converted group (DESIGN.md C12)']
@@ -194,7 +194,7 @@ def h_signature(ctx, cfg):
     spec = U.gen_sigs(1, cfg['K'])[0]
     form, a = _draw_decoration(spec)
     annotated = sym.flip('ann')
-    dvals = dict((nm, sym.sym_val('dv')) for nm, d in zip(spec.names, spec.defaults) if d)
+    dvals = dict((nm, 100 + i) for i, (nm, d) in enumerate(zip(spec.names, spec.defaults)) if d)
     with sym.notrace():
         exp = _expected(spec, form, a)
         ctx.case('%s on %r%s' % (_render_dec(form, a), spec, ' annotated' if annotated else ''),
@@ -277,7 +277,7 @@ def h_call(ctx, cfg):
         bound = sym.flip('bound')
     npos = sum(1 for k in spec.kinds if k < 2)
     n, kws = _draw_call(list(spec.names) + [FOREIGN_NAME], npos + 2)
-    dvals = dict((nm, sym.sym_val('dv')) for nm, d in zip(spec.names, spec.defaults) if d)
+    dvals = dict((nm, 100 + i) for i, (nm, d) in enumerate(zip(spec.names, spec.defaults)) if d)
     avals = [sym.sym_val('av') for _ in range(n)]
     kvals = dict((nm, sym.sym_val('kv')) for nm in kws)
     with sym.notrace():
